@@ -504,6 +504,8 @@ pub fn render_glue(p: &Program, o: &RenderOpts) -> String {
         }
         writeln!(s, "        }});").unwrap();
     }
+    // remote helpers (C10)
+    render_helpers(p, o, &mut s);
     // entry points + multitest Contract impl
     if p.contract.entry_points {
         let mut eps = vec![Kind::Instantiate, Kind::Exec, Kind::Query, Kind::Sudo];
@@ -550,4 +552,91 @@ pub fn render_module(p: &Program, o: &RenderOpts) -> String {
         s.push_str(&render_glue(p, o));
     }
     s
+}
+
+fn dyn_iface(p: &Program, i: &Interface) -> String {
+    let (ic, iq) = iface_cq(p, i);
+    let mut binds = vec![format!("Error = {}", err_ty(p))];
+    if i.style == CustomStyle::Assoc {
+        binds.push(format!("ExecC = {ic}"));
+        binds.push(format!("QueryC = {iq}"));
+    }
+    for (k, t) in conc_names(&i.assoc).iter().enumerate() {
+        binds.push(format!("A{k} = {t}"));
+    }
+    format!("dyn {}::{}<{}>", i.module, i.trait_name, binds.join(", "))
+}
+
+/// Glue for the executor / querier / instantiate-builder helpers.
+fn render_helpers(p: &Program, o: &RenderOpts, s: &mut String) {
+    let sv = &o.sv;
+    let q = q_ty(p);
+    let gens = conc_names(&p.contract.generics);
+    let ctr_trait_args = if gens.is_empty() { String::new() } else { format!("<{}>", gens.join(", ")) };
+    for h in p.handlers() {
+        if h.kind != Kind::Exec && h.kind != Kind::Query {
+            continue;
+        }
+        let assoc_conc: Vec<String> = if h.part == 0 { vec![] } else { conc_names(&p.interfaces[h.part - 1].assoc) };
+        let mut decode = String::new();
+        for (n, a) in h.args.iter().enumerate() {
+            writeln!(decode, "            let {}: {} = svrt::arg(vp_args_, {n})?;", a.name, a.ty.rust(&gens, &assoc_conc)).unwrap();
+        }
+        let vals: Vec<String> = h.args.iter().map(|a| a.name.clone()).collect();
+        let helper = helper_ident(&h.name);
+        // (label, handle type, trait path)
+        let mut variants: Vec<(String, String, String)> = vec![];
+        if h.part == 0 {
+            let tr = if h.kind == Kind::Exec { format!("sv::Executor{ctr_trait_args}") } else { format!("sv::Querier{ctr_trait_args}") };
+            variants.push(("ctr".into(), "CtrC".into(), tr));
+        } else {
+            let i = &p.interfaces[h.part - 1];
+            let tr = if h.kind == Kind::Exec { format!("{}::sv::Executor", i.module) } else { format!("{}::sv::Querier", i.module) };
+            variants.push(("ctr".into(), "CtrC".into(), tr.clone()));
+            variants.push(("dyn".into(), dyn_iface(p, i), tr));
+        }
+        for (label, handle, tr) in variants {
+            if h.kind == Kind::Exec {
+                writeln!(s, "        b.extra(\"exec:{}:{label}\", svrt::ExecHelper(Box::new(|vp_addr_, vp_funds_, vp_args_| {{", h.id).unwrap();
+                s.push_str(&decode);
+                writeln!(s, "            let vp_remote_ = {sv}::types::Remote::<{handle}>::new(Addr::unchecked(vp_addr_));").unwrap();
+                writeln!(s, "            let vp_b_ = match vp_funds_ {{ Some(f) => vp_remote_.executor().with_funds(f), None => vp_remote_.executor() }};").unwrap();
+                writeln!(
+                    s,
+                    "            let vp_ready_ = <{sv}::types::ExecutorBuilder<({sv}::types::EmptyExecutorBuilderState, {handle})> as {tr}>::{helper}(vp_b_, {}).map_err(|e| e.to_string())?;",
+                    vals.join(", ")
+                )
+                .unwrap();
+                writeln!(s, "            Ok(vp_ready_.build())\n        }})));").unwrap();
+            } else {
+                writeln!(s, "        b.extra(\"query:{}:{label}\", svrt::QueryHelper(Box::new(|vp_h_, vp_addr_, vp_args_| {{", h.id).unwrap();
+                s.push_str(&decode);
+                writeln!(s, "            let vp_qw_ = {sv}::cw_std::QuerierWrapper::<{q}>::new(&vp_h_.querier);").unwrap();
+                writeln!(s, "            let vp_a_ = Addr::unchecked(vp_addr_);").unwrap();
+                writeln!(s, "            let vp_remote_ = {sv}::types::Remote::<{handle}>::borrowed(&vp_a_);").unwrap();
+                writeln!(s, "            let vp_bq_ = vp_remote_.querier(&vp_qw_);").unwrap();
+                writeln!(
+                    s,
+                    "            let vp_r_ = <{sv}::types::BoundQuerier<{q}, {handle}> as {tr}>::{helper}(&vp_bq_, {}).map_err(|e| e.to_string())?;",
+                    vals.join(", ")
+                )
+                .unwrap();
+                writeln!(s, "            Ok(svrt::j(&vp_r_))\n        }})));").unwrap();
+            }
+        }
+    }
+    // instantiate builder
+    if let Some(h) = p.handlers().into_iter().find(|h| h.kind == Kind::Instantiate) {
+        writeln!(s, "        b.extra(\"inst_builder\", svrt::InstHelper(Box::new(|vp_code_, vp_args_| {{").unwrap();
+        for (n, a) in h.args.iter().enumerate() {
+            writeln!(s, "            let {}: {} = svrt::arg(vp_args_, {n})?;", a.name, a.ty.rust(&gens, &[])).unwrap();
+        }
+        let vals: Vec<String> = h.args.iter().map(|a| a.name.clone()).collect();
+        writeln!(
+            s,
+            "            <{sv}::builder::instantiate::InstantiateBuilder as sv::CtrInstantiateBuilder>::ctr(vp_code_, {}).map_err(|e| e.to_string())\n        }})));",
+            vals.join(", ")
+        )
+        .unwrap();
+    }
 }
